@@ -564,6 +564,10 @@ func (s *state) addConnHandler(
 	served := make(map[string]bool) // the services the back-end says it serves
 	for _, svc := range r.GetListServicesResponse().GetService() {
 		served[svc.GetName()] = true
+		// What is served is part of what may have changed.
+		if _, err := h.Write([]byte(svc.GetName() + "\n")); err != nil {
+			return err
+		}
 		if err := stream.Send(&rpb.ServerReflectionRequest{
 			MessageRequest: &rpb.ServerReflectionRequest_FileContainingSymbol{
 				FileContainingSymbol: svc.GetName(),
